@@ -6,19 +6,32 @@ from ..core import Result, viol, exc_sig
 ID = 'C02'
 RULE = ('cases = generated G-SEL spec (derivation DAGs/cycles, shared options, several choices per node, multiple start '
         'nodes, 0-2 incompatibilities); all orders of taking active selection choices explored through the DSG API as a '
-        'DAG of decision sets (<= 3000 states, else truncated and counted as excluded); oracle = closure judged on the '
+        'DAG of decision sets (<= 1200 states in quick, 20000 in thorough, else truncated and counted as excluded); oracle = closure judged on the '
         'instance + set equality with R-SEL + same decision set => same state; non-trivial = >= 2 selection choices '
         'offered at the same time somewhere in the walk, or a shared-option / cycle label, and >= 2 reference '
         'architectures; distinct by sha1(spec)')
 BUDGET = {'quick': 300, 'thorough': 6000}
-MAX_STATES = {'quick': 3000, 'thorough': 30000}
+MAX_STATES = {'quick': 1200, 'thorough': 20000}
 
 
 def strategy(tier):
-    return st.fixed_dictionaries({'spec': specs.sel_spec(max_nodes=10 if tier == 'quick' else 12, max_incompat=2)})
+    return st.fixed_dictionaries({'spec': st.one_of(specs.sel_spec(max_nodes=10 if tier == 'quick' else 12, max_incompat=2),
+                                                    specs.sel_spec(max_nodes=10 if tier == 'quick' else 12, max_incompat=2,
+                                                                   dag_rich=True),
+                                                    specs.layered_spec(max_incompat=2))})
 
 
 def check_case(case, tier='quick', prop=ID):
+    import os, time, json
+    t0 = time.time()
+    try:
+        return _check_case(case, tier, prop)
+    finally:
+        if os.environ.get('VF_TIMING') and time.time()-t0 > 5:
+            print('SLOW', round(time.time()-t0, 1), json.dumps(case)[:1500], flush=True)
+
+
+def _check_case(case, tier='quick', prop=ID):
     res = Result()
     spec = case['spec']
     res.classes = specs.labels(spec)
